@@ -158,6 +158,18 @@ CLAIMED['C09'] = dict(
     note=("Trusted: Coq kernel; Reals axioms; translators T-K and T-A; shapely translate/rotate sampled against the closed formulas."),
     ref="DESIGN.md section 4 C09")
 
+CLAIMED['C06'] = dict(
+    technique="Coq proofs (field, telescoping inductions over lists of units) about regenerated formulas and a hand-over model; solved sequences as oracle",
+    text=("Theorems: a profile built from another carries exactly its public explicit values; t_out = t_in + duration and along any "
+          "sequence the final time is the initial one plus the sum of durations, never decreasing; volume is conserved through a pass "
+          "when elongation and out length stem from the same iterate, with the exact lag identity V_out/V_in = A_k/A_j otherwise; "
+          "strain accumulates in passes and is reset by transports; the unit elongations multiply to the sequence's area ratio; "
+          "rotators take no time and preserve area; n disk elements of 1/n add up to the parent. Six solved layouts (nested, "
+          "rotator, cooling pipe, disks, spread model, three-roll) are checked unit by unit."),
+    note=("Trusted: Coq kernel; Reals axioms; translator T-A; the hand-over model (filter of public keys) is tied to the code by the "
+          "oracle's identity/equality comparison of every public value between neighbouring units; tolerances 2x/3x iteration precision."),
+    ref="DESIGN.md section 4 C06")
+
 NOT_YET = {}
 
 
